@@ -93,7 +93,7 @@ def gen_zone(rng, apex=None, cls=None, child_cuts=()):
         if rng.random() < 0.05:
             z.add([], T_SOA, soa_rdata(rng, apex, 7), ttl=soa_ttl)
     # apex NS / MX
-    if rng.random() < 0.7:
+    if rng.random() < 0.85:
         z.add([], T_NS, z.name([b"ns"]), ttl=3600)
         if rng.random() < 0.5:
             z.add([], T_NS, z.name(None, [b"ns", b"elsewhere"]), ttl=3600)
@@ -184,10 +184,10 @@ def gen_zone(rng, apex=None, cls=None, child_cuts=()):
         if rng.random() < 0.1:
             z.add(names[0], T_CNAME, z.name([b"w"]), ttl=30)     # a second CNAME record (ignored by the chase)
     # MX / SRV / NS-like records with targets
-    for _ in range(rng.choice([0, 1, 2, 3])):
+    for _ in range(rng.choice([1, 2, 3, 4])):
         owner = rng.choice([[], [b"w"], [b"mail"], [b"x", b"y"]])
         ty = rng.choice([T_MX, T_MX, T_SRV, T_MB, T_MD, T_NS if owner == [] else T_MX])
-        tgt = rng.choice([[b"mx"], [b"w"], [b"nx"], [b"srv"], [b"anything", b"w"], None] + ([[b"ns"] + cuts[0]] if cuts else []))
+        tgt = rng.choice([[b"mx"], [b"mx"], [b"w"], [b"w"], [b"ns"], [b"nx"], [b"srv"], [b"anything", b"w"], None] + ([[b"ns"] + cuts[0]] if cuts else []))
         nm = z.name(None, [b"mail", b"out"]) if tgt is None else z.name(tgt)
         if dirty and rng.random() < 0.3 and ty in (T_MX, T_SRV):
             nm = z.bad_name()
@@ -279,7 +279,10 @@ def norm_rdata(ty, rdhex):
     against an earlier, differently spelled occurrence changes the spelling the Reader reports"""
     if rdhex == "-":
         return rdhex
-    rd = bytes.fromhex(rdhex)
+    try:
+        rd = bytes.fromhex(rdhex)
+    except ValueError:
+        return rdhex                      # a symbolic rendering (TSIG(...)), not octets
     if ty in NAME_ONLY:
         return _lower(rd).hex()
     if ty == 15 and len(rd) >= 2:
@@ -296,7 +299,11 @@ def norm_rr(e):
     p = e.split("/")
     if len(p) != 5:
         return e
-    owner = _lower(bytes.fromhex(p[0])).hex() if p[0] != "-" else p[0]
+    try:
+        owner = _lower(bytes.fromhex(p[0])).hex() if p[0] != "-" else p[0]
+        int(p[1])
+    except ValueError:
+        return e
     return "/".join([owner, p[1], p[2], p[3], norm_rdata(int(p[1]), p[4])])
 
 
